@@ -27,8 +27,9 @@ let check inp obs =
     let v = parse_value d vs in
     let mm = multi_map v in
     let u57 = has_uint57 t v in
+    let se = some_enum t v in
     let typed = has_type v t && wf_ty t in
-    let enc = encode t v in
+    let enc = encode_go t v in
     let model =
       if mm then "nondet ~"
       else hex_of_bytes enc ^ " " ^
@@ -45,12 +46,13 @@ let check inp obs =
             else (try Some (parse_value d r) with Parse _ -> None)))
         | _ -> (None, None)) in
     let prop = c11_prop t v ib irt in
-    let finding = if prop then "-" else if mm then "map-order" else if u57 then "uint-5to7" else "-" in
+    let finding = if prop then "-" else if mm then "map-order" else if se then "some-enum"
+      else if u57 then "uint-5to7" else "-" in
     let tags = String.concat "," (
         ["enc"; (if typed then "well-typed" else "ILL-TYPED")]
         @ ty_kinds d []
         @ (match d with DPrim (TUint | TBig) -> [compact_mode_tag v] | _ -> [])
-        @ (if mm then ["multi-map"] else []) @ (if u57 then ["uint57"] else [])) in
+        @ (if mm then ["multi-map"] else []) @ (if u57 then ["uint57"] else []) @ (if se then ["some-enum"] else [])) in
     { prop_ok = prop; model_eq = (model = obs); nontrivial = (List.length enc >= 2); finding; tags;
       detail = (if prop && model = obs then "" else
                   Printf.sprintf "model=%s spec=%s" (if String.length model > 300 then String.sub model 0 300 else model)
